@@ -55,6 +55,11 @@ def decorate(spec, variant):
             c["lim"] = copy.deepcopy(APPL_LIM.get(c["k"], ALL_LIM))
             if variant == 3:  # a negative-rail window written in the rail's polarity: [-min, -max] is NOT ascending
                 c["lim"] = {k: ([-v[0], -v[1]] if k != "tp" else v) for k, v in c["lim"].items()}
+    if variant == 7:   # a NON-applicable limit next to the applicable ones (it is not saved, and it never warns: before and after the round trip alike)
+        NA = {"Source": {"vi": [0.0, 1e-3]}, "PLoad": {"vo": [1.0, 2.0], "io": [1.0, 2.0]}, "ILoad": {"vo": [1.0, 2.0], "ii": [0.0, 1e-9]},
+              "RLoad": {"vo": [1.0, 2.0], "po": [5.0, 6.0]}, "Converter": {"vd": [0.0, 1e-6]}}
+        for c in sp["comps"]:
+            c["lim"] = dict(copy.deepcopy(APPL_LIM.get(c["k"], ALL_LIM)), **copy.deepcopy(NA.get(c["k"], {})))
     if variant == 6:   # one-sided limits: one bound moved, the other left at (or beyond) the documented default; negative spelling of a lower bound
         for c in sp["comps"]:
             c["lim"] = {k: ([v[0], 1.0e6] if k != "tp" else [-20.0, 1.0e6]) for k, v in copy.deepcopy(APPL_LIM.get(c["k"], ALL_LIM)).items()}
@@ -191,11 +196,12 @@ def check_case(case):
             res.classes.add("version:%s:%s" % (label, out))
         res.nontrivial = 1
         return res
+    REPS = REPORTS if case.get("variant") != 7 else [r_ for r_ in REPORTS if r_ != "params"]   # params(limits=True) shows a non-applicable limit only before the round trip (by design)
     if case.get("remux"):   # save FIRST (nothing may refresh the object's caches between the edit and save()), analyse afterwards
         s2, doc, path = roundtrip(res, s, "r")
-        a = all_reports(s, REPORTS)
+        a = all_reports(s, REPS)
     else:
-        a = all_reports(s, REPORTS)
+        a = all_reports(s, REPS)
         s2, doc, path = roundtrip(res, s, "r")
     if isinstance(a["solve_energy"], tuple):
         res.classes.add("original-unsolvable")
@@ -203,7 +209,7 @@ def check_case(case):
         if fam == "names":
             res.viol = [(("C12.format-key-as-name", "source=%s" % case["source"], "comp=%s" % case["comp"]) + sig, det) for sig, det in res.viol]
         return res
-    b = all_reports(s2, REPORTS)
+    b = all_reports(s2, REPS)
     for rep, d in diff_reports(a, b, 1e-9, 1e-12)[:6]:  # sums are taken in row order, which a reload may change
         what = __import__("re").sub(r"^\(.*?\)\s*", "", d).split(":")[0][:40]
         kinds = case.get("kind", fam)
@@ -273,6 +279,7 @@ def gen_cases(tier):
             yield dict(fam="tree", f=f, pal=pal, variant=4, pol=1)
             yield dict(fam="tree", f=f, pal=pal, variant=5, pol=1)
             yield dict(fam="tree", f=f, pal=pal, variant=6, pol=1)
+            yield dict(fam="tree", f=f, pal=pal, variant=7, pol=1)
             yield dict(fam="tree", f=f, pal=pal, variant=1, pol=1, resave=True)
     if tier == "quick":
         for f in itertools.islice(mid.iter_forests(3), 0, None, 5):
